@@ -31,6 +31,18 @@ CHECKS = {
         note=TB + " Partial: the Coq NanoCore relation (formal/Semantics.v) is not re-checked here - its floor division / unbounded integers differ from every engine (F-C02-3, documentation-level finding recorded in DESIGN.md); floats are outside the reference.",
         technique="Lean 4 proof (BitVec/Int arithmetic lemmas for all operands, evaluator laws by unfolding) + differential correspondence of both engines against the executable reference",
         design="6/C02"),
+    "C03": dict(
+        text=("The compile-time evaluator (src/eval.c) is a third engine; it is not modelled as code. Proved in Lean 4 is the one mechanism in which it differs by design "
+              "from compiled code and the specification: it keeps a single symbol stack for all active calls, so a name free in a callee is looked up through the callers' "
+              "locals before the globals. scope_agree states exactly when that look-up equals the static one - for every stack of caller frames, every set of globals and "
+              "every name - distinct_names_agree gives the program-level sufficient condition, scope_differs exhibits the disagreement (finding F-C03-1). Everything else "
+              "is decided by correspondence with the reference semantics and by the property's own oracle on the implementation: generated programs whose shadow blocks "
+              "print calls of their function (boundary arguments) and assert the value the reference computed, and whose main performs the same calls and assertions: "
+              "nanoc --verbose must accept, and the text printed between 'Testing f...' and PASSED must equal the reference output and the compiled binary's stdout; "
+              "families for operators at boundary / near-equal operands, nested loops with continue/break, float conversions."),
+        note=TB + " Partial: eval.c is tied to the reference only by these runs; known findings F-C03-1 (dynamic scoping), F-C03-2 (return inside a match arm), F-C03-3 (array_push on literal arrays) are reported on every run; two evaluator defects and one transpiler defect found by this check were repaired.",
+        technique="Lean 4 proof (scoping look-up lemma for all frame stacks) + differential correspondence evaluator / reference / compiled binary",
+        design="6/C03"),
     "C06": dict(
         text=("Lean 4 theorems over the gate logic of run_shadow_tests and phase 5 of compile_file (per shadow block: skipped or not, number of "
               "false assertions counted while its body and callees ran): the run fails iff some executed block saw a false assertion, for "
